@@ -6,6 +6,7 @@ import (
 	"encoding/xml"
 	"fmt"
 	"regexp"
+	"strings"
 	"time"
 
 	"verif/harness/internal/s3c"
@@ -46,7 +47,10 @@ func c20Policy() string {
 	// a bucket policy, once set, decides alone: the owner needs a statement too
 	return `{"Version":"2012-10-17","Statement":[` +
 		`{"Effect":"Allow","Principal":{"AWS":["` + c20OwnerAccess + `"]},"Action":"s3:*",` + res + `},` +
-		`{"Effect":"Allow","Principal":{"AWS":["` + c20UserAccess + `"]},"Action":["s3:GetObject","s3:ListBucket"],` + res + `}]}`
+		`{"Effect":"Allow","Principal":{"AWS":["` + c20UserAccess + `"]},"Action":["s3:GetObject","s3:ListBucket"],` + res + `},` +
+		// a Deny (always evaluated) whose resource pattern has many wildcards: harmless for a
+		// linear-time matcher, matches no key of the fixture
+		`{"Effect":"Deny","Principal":"*","Action":"s3:*","Resource":"arn:aws:s3:::` + c20Bucket + `/` + strings.Repeat("*a", 14) + `*b"}]}`
 }
 
 func c20NewFixture(env *Env) (*c20Fixture, error) {
